@@ -2,3 +2,4 @@ pub mod report;
 pub mod enumerate;
 pub mod der;
 pub mod signer;
+pub mod pki;
